@@ -110,6 +110,9 @@ class QTensorLinear(torch.autograd.Function):
                 group_size=other._group_size,
             )
         elif isinstance(other, QBytesTensor):
+            if isinstance(input, QBytesTensor) and input.axis is not None:
+                # The scale of per-axis activations cannot be factored out of the matrix multiplication
+                input = input.dequantize()
             if isinstance(input, QBytesTensor):
                 output = torch.ops.quanto.qbytes_mm(input._data, other._data, input._scale * other._scale)
             else:
